@@ -38,6 +38,9 @@ type Cell struct {
 	FixedID bool `json:"fixed_command_id,omitempty"`
 	// CodeState: "" = T's code is unused, activated-by-L = L activated it with the same listen_address the cell sends.
 	CodeState string `json:"code_state,omitempty"`
+	// Again: the command is sent twice; after the first (judged) round the relationship L->T is taken away
+	// (delete | revoked | expired | inactive applied to the victim mappings); the second round is the one reported.
+	Again string `json:"again_after,omitempty"`
 	// MState: state the victim's mappings (L->T) are put into before the command: "" = active,
 	// revoked | expired | inactive (the record exists but IsValid() is false).
 	MState string `json:"mapping_state,omitempty"`
@@ -314,6 +317,30 @@ func (w *world) step(c *Cell) (res stepResult) {
 		return
 	}
 	rid := w.idOf(c.Identity)
+	if c.Again != "" {
+		first := *c
+		first.Again = ""
+		r1 := w.step(&first)
+		if r1.f != nil {
+			return r1
+		}
+		if err := w.removeEntitlement(c.Again); err != nil {
+			res.f = &fail{"C11/harness/setup-failed", err.Error()}
+			return
+		}
+		second := *c
+		second.Again, second.MState = "", ""
+		r2 := w.step(&second)
+		r2.class += "/again-after-" + c.Again
+		r2.recorded = append(r2.recorded, r1.recorded...)
+		if !r1.skipped && !r2.skipped {
+			r2.summary = r1.summary + " || " + r2.summary
+		}
+		if r2.f != nil && !strings.Contains(r2.f.key, "/harness/") {
+			r2.f.key += "/entitlement-removed-between-two-identical-requests"
+		}
+		return r2
+	}
 	if c.MState != "" {
 		if err := w.setMappingState(c.MState); err != nil {
 			res.f = &fail{"C11/harness/setup-failed", err.Error()}
@@ -472,7 +499,7 @@ func (w *world) judge(sp *spec, c *Cell, rid int64, m *meta, before, after snaps
 			// DNS: is the requester the listen client of a mapping whose target is the named client?
 			party = false
 			for _, o := range before {
-				if o.Kind == "mapping" && authed && o.Parties[0] == rid && (o.Parties[1] == m.targetID || m.targetID <= 0) {
+				if o.Kind == "mapping" && authed && o.Parties[0] == rid && (o.Parties[1] == m.targetID || m.targetID <= 0) && o.hasState("valid=true") {
 					party = true
 				}
 			}
@@ -643,18 +670,22 @@ func (w *world) judge(sp *spec, c *Cell, rid int64, m *meta, before, after snaps
 			if m.targetID <= 0 {
 				// default path: the receiver must be the target of one of the requester's own mappings
 				for _, o := range before {
-					if o.Kind == "mapping" && o.Parties[0] == rid && o.Parties[1] == recv {
+					if o.Kind == "mapping" && o.Parties[0] == rid && o.Parties[1] == recv && o.hasState("valid=true") {
 						named = true
 					}
 				}
 			}
-			if authed && recv != 0 && named {
+			// the permission derives from a relationship: the source must (still) be the listen client of a
+			// valid mapping whose target is the receiver (isDNSTargetAllowed states exactly this rule)
+			if authed && recv != 0 && named && party {
 				ok = true
-				if !party {
-					// an authenticated client without a mapping to the target: the statement does not
-					// decide this; recorded, not asserted
-					res.recorded = append(res.recorded, "recorded:dns-forwarded-for-authenticated-client-without-mapping-to-target")
-				}
+			} else if authed && recv != 0 && m.targetID <= 0 {
+				// root cause of its own: no target named, the server picks the default target from the requester's mappings
+				return bad("packet-delivered-to-other-client/default-target-taken-from-mapping-that-is-no-longer-valid",
+					fmt.Sprintf("requester %s(id %d) named no target; the request went to %s(id %d) although no valid mapping of the requester leads there (mapping state %q, again-after %q): %s", c.Identity, rid, n, recv, c.MState, c.Again, pktString(out.others[n][0])))
+			} else if authed && recv != 0 {
+				return bad("packet-delivered-to-other-client/requester-has-no-valid-mapping-to-the-target",
+					fmt.Sprintf("requester %s(id %d) is not the listen client of a valid mapping to %s(id %d) (named target %d): %s", c.Identity, rid, n, recv, m.targetID, pktString(out.others[n][0])))
 			}
 		}
 		if !ok && sp.Type == packet.SOCKS5TunnelRequestCmd {
